@@ -602,6 +602,8 @@ func classifyPanic(p any) string {
 		return "numout"
 	case strings.Contains(s, "reflect: Call using") || strings.Contains(s, "reflect: cannot use"):
 		return "callassign"
+	case strings.Contains(s, "reflect.Value.Convert"):
+		return "convert"
 	case strings.Contains(s, "reflect: Call with too"):
 		return "callarity"
 	case strings.Contains(s, "NumIn of non-func"):
@@ -690,6 +692,8 @@ func runImpl(c kase) (res implResult) {
 				return implResult{kind: "parse-error", detail: "toomany", raw: msg}
 			case strings.Contains(e.Message, "undefined function"):
 				return implResult{kind: "parse-error", detail: "undefined", raw: msg}
+			case strings.HasPrefix(e.Message, "native function") && strings.HasSuffix(e.Message, "is not a function"):
+				return implResult{kind: "parse-error", detail: "notfunc", raw: msg}
 			}
 			return implResult{kind: "parse-error", detail: "other:" + hx.HexS(e.Message), raw: msg}
 		case *interp.Error:
